@@ -7,6 +7,7 @@
     (harness/h_rspawn_report.c) and the real qmail-rspawn binary with a scripted $QMAILREMOTE."""
 import json
 import os
+import shutil
 import socket
 import subprocess
 import time
@@ -253,6 +254,7 @@ def e2e_worker(bdir, cases, tier):
                         {"loopback_script": wit["script"], "reports": core.hx(out[:200])})
     finally:
         sink.close()
+        shutil.rmtree(home, ignore_errors=True)      # pool workers do not run atexit handlers
     return res
 
 
@@ -331,6 +333,13 @@ def rspawn_worker(bdir, standin, cases, tier):
     res = core.Result()
     b = build.Build("asan", bdir)
     home = build.mktemp("nqv-c09r-")
+    try:
+        return _rspawn_worker(res, b, home, standin, cases)
+    finally:
+        shutil.rmtree(home, ignore_errors=True)      # pool workers do not run atexit handlers
+
+
+def _rspawn_worker(res, b, home, standin, cases):
     sandbox.make_home(b, home, controls={"me": "client.test"}, bins=("qmail-rspawn",))
     os.makedirs(home + "/queue/mess/0", exist_ok=True)
     os.makedirs(home + "/cases", exist_ok=True)
